@@ -68,7 +68,7 @@ def sim_cfg(shapes, depth, *, useinit="TRUE", maxrel=60):
     names = "{" + ", ".join('"%s"' % s for s in shapes) + "}"
     return "\n".join([
         "SPECIFICATION SimSpec", "CONSTANTS", "  Dev = {}", "  ShapeNames = %s" % names,
-        "  Steps = {1, 2, 5}", "  DurChoices = {1, 4}", "  MaxRel = %d" % maxrel, "  MaxDepth = 3",
+        "  Steps = {1, 2, 5}", "  DurChoices <- SimDurs", "  MaxRel = %d" % maxrel, "  MaxDepth = 3",
         "  MaxLevel = 1000", "  UseInit = %s" % useinit, "  MaxActs = 3", "  UseRaise = TRUE", "  SimDepth = %d" % depth,
         "CONSTRAINT Emit", "CONSTRAINT SimBound", "CHECK_DEADLOCK FALSE"]) + "\n"
 
